@@ -164,12 +164,18 @@ def run(ctx):
         c = r["c"]
         viol, info = judge(r)
         stats["status%d" % r["status"]] += 1
+        if r.get("route_retries"):
+            stats["repeated_because_route_not_as_planned"] += r["route_retries"]
         stats["entry_" + info["entry"]] += 1
         if info["text_changed"]:
             changed_cases += 1
         if info["diverged"]:
             diverged_obs.append({"case": {k: c[k] for k in ("class", "ep", "level", "role")}, "text": r["text"],
                                  "after": {n["id"]: [d["after"] for d in n["diff"]] for n in r["nodes"]}})
+        if c["class"] == "attach" and ("a%d" % (c["id"] + 1000)) in r.get("pool_dblist", "").split(","):
+            conn_obs["pool-connection-keeps-attached-db:endpoint=%s" % c["ep"]] += 1
+        if c["class"] == "attach" and r.get("attach_files"):
+            conn_obs["attach-created-a-file:endpoint=%s" % c["ep"]] += 1
         if info["conn_changed"]:
             conn_obs["rwconn-state-changed:class=%s:endpoint=%s" % (c["class"], c["ep"])] += 1
         for kind, what in viol:
@@ -189,12 +195,17 @@ def run(ctx):
                 stats["classified_unlike_spec_tolerated"] += 1
             else:
                 class_mismatch.append({"case": c, "text": r["text"], "store_ro": info["store_ro"], "db_ro": info["db_ro"], "explain": r["explain_flag"]})
-    if route_mismatch:
-        raise vlib.Undecided("the code's dispatch differs from ReadOnly.tla in %d cases, e.g. %s" % (len(route_mismatch), route_mismatch[:3]))
-    if class_mismatch:
-        raise vlib.Undecided("the code classifies %d texts unlike ReadOnly.tla's class attributes, e.g. %s" % (len(class_mismatch), class_mismatch[:3]))
-    if must_missing:
-        raise vlib.Undecided("writes through the unified endpoint were not observed (harness blind?): %s" % must_missing[:3])
+    # spec/code conformance problems make the run undecided -- unless the real code violated the property in
+    # this run: a misbehaving classifier or route is then the violation's cause, and the violation is the verdict
+    ctx.cov["conformance"] = {"route_mismatches": len(route_mismatch), "classification_mismatches": len(class_mismatch),
+                              "expected_writes_not_observed": len(must_missing)}
+    if not [v for v in ctx.violations if not vlib.match_known(ctx.pid, v[0])]:
+        if route_mismatch:
+            raise vlib.Undecided("the code's dispatch differs from ReadOnly.tla in %d cases, e.g. %s" % (len(route_mismatch), route_mismatch[:3]))
+        if class_mismatch:
+            raise vlib.Undecided("the code classifies %d texts unlike ReadOnly.tla's class attributes, e.g. %s" % (len(class_mismatch), class_mismatch[:3]))
+        if must_missing:
+            raise vlib.Undecided("writes through the unified endpoint were not observed (harness blind?): %s" % must_missing[:3])
 
     # binding self-test of the judge: a fabricated change on one node of a real read-only observation must be caught
     caught = 0
